@@ -403,6 +403,8 @@ for name, inst, tier in [
     ("fail_switch_up1", "request that needs chunk 2 under refusal: allocate / allocate_zeroed / grow / try_reserve", "quick"),
     ("fail_switch_down4", "same, down, MIN_ALIGN 4", "thorough"),
     ("fail_unallocated", "first allocation of an unallocated arena under refusal, then recovery", "quick"),
+    ("fail_huge_grow_down1", "grow / grow_zeroed of the newest block to ANY size in [2^32, isize::MAX] (valid Layout, no chunk can hold it), down", "quick"),
+    ("fail_huge_grow_up1", "same, up", "thorough"),
     ("fail_vec_up", "BumpVec growth under refusal: try_reserve / try_extend_from_slice_copy / try_resize / try_push", "thorough"),
     ("fail_vec_down", "same, down", "thorough"),
 ]:
@@ -436,8 +438,11 @@ for name, inst, tier in [
     ("c12x_first_va_up", "first allocation of an unallocated arena", "quick"),
     ("c12x_first_va_down", "first allocation, down", "thorough"),
     ("c12x_first_stateful_up", "first allocation, stateful allocator", "thorough"),
+    ("c12x_first_off48_up", "first allocation of an unallocated arena, layout L(<=64 B, <=64), base allocator whose blocks start at 48 mod 64 (chunk start only 16-aligned: over-aligned requests need padding in the fresh chunk), up", "quick"),
+    ("c12x_first_off16_down", "same, blocks start at 16 mod 64, down", "thorough"),
+    ("c12x_slow_off48_up", "slow path on a chunk that is too full, blocks start at 48 mod 64, up", "thorough"),
 ]:
-    A("c12x", name, ["C12"], inst, tags=(["reserve"] if "reserve" in name else []), tier=tier, mem_gb=12, bounds=C12X)
+    A("c12x", name, ["C12"] + (["C01"] if "_off" in name else []), inst, tags=(["reserve"] if "reserve" in name else []) + (["pad"] if "first_off" in name else []), tier=tier, mem_gb=12, bounds=C12X)
 
 # C15 exclusive-borrow collections (+ their C08 capacity clauses)
 C15B = "concrete shape per harness (filler bytes, reserved capacity, <= 3 pushes, which push is granted a new chunk), symbolic element values; 16-byte first chunk; unwind 8"
@@ -557,6 +562,23 @@ for name, inst, tier in [
     ("typed_dealloc_wrappers_down4", "same, down, MIN_ALIGN 4", "thorough"),
 ]:
     A("slices", name, ["C13", "C17"], inst, tier=tier, mem_gb=6, bounds="new, filler L(<=4,<=4), one [u8;4] block, ONE typed deallocation through a symbolic choice of 7 entry points, one allocation after; unwind 6")
+
+for name, inst, tier in [
+    ("split_parts_up8_len8", "up, MIN_ALIGN 8, an 8-byte block split at every interior point (a part ends inside the other part's min-align padding)", "quick"),
+    ("split_parts_up8_len16", "up, MIN_ALIGN 8, a 16-byte block (two granules; the tail may lie inside the last granule)", "thorough"),
+    ("split_parts_down4_len8", "down, MIN_ALIGN 4, 8-byte block", "thorough"),
+    ("split_parts_up1_len8", "up, MIN_ALIGN 1, 8-byte block", "thorough"),
+]:
+    A("slices", name, ["C01", "C16", "C02", "C13"], inst, tier=tier, mem_gb=8, timeout_s=2400, bounds="new, ONE block of LEN bytes split at a symbolic interior point, ONE operation (deallocate + allocate / grow / shrink / typed shrink_slice + allocate, N = L(<=8,<=8)) on a symbolic choice of the part; 1 chunk; unwind 6")
+
+for name, inst, tier in [
+    ("cstr_into_mut_up1", "MutBumpString (capacity 5) holding ANY text of <= 4 ASCII bytes (NULs anywhere), try_into_cstr, up", "quick"),
+    ("cstr_into_mut_down1", "same, down", "thorough"),
+    ("cstr_from_str_up1", "try_alloc_cstr_from_str(ANY text of <= 4 ASCII bytes), up", "quick"),
+    ("cstr_from_str_down1", "same, down", "thorough"),
+]:
+    A("cstr", name, ["C09"], inst, tier=tier, mem_gb=8, timeout_s=1800, bounds="text <= 4 ASCII bytes incl. NUL at any position; no growth (capacity reserved); 1 chunk; unwind 7")
+    HARNESSES[-1]["unwind"] = 7
 
 # C19 pool (sequentialised): one concrete schedule of two logical threads per harness
 for name, inst, tier in [
